@@ -240,6 +240,26 @@ def run(ctx, model_ok):
         mcases.append(f'({clist(tbl)}, {bl}, {r["err_b_code"]}, {vlib.cbytes(r["trace_codes"].encode())}, '
                       f'{c16.coq_pv(r["meta"]["processes"])}, {clist([c16.coq_pv(x) for x in kx["l"]])}, '
                       f'{c16.coq_pv(r["meta"]["images"])}, {c16.coq_pv(r["meta"]["dyld"])}, {logs})')
+    # through the public API: a listing that is read to its end has read every section, so the tables hold the thread map
+    # and every declaration of the log records, whichever listing was asked for
+    areq, aexp = [], []
+    for g, rs in list(zip(gens, res))[:(25 if ctx.quick() else 400)]:
+        r = rs[0]
+        if r['err'] is not None:
+            continue
+        for call in ('kevents', 'traces', 'os_log_events'):
+            areq.append({'file': g['data'].hex(), 'cfg': {'color': False}, 'calls': [call]})
+            aexp.append((g, call, r['threads_pids'], r['pids_names']))
+    ares = vlib.run_impl('run_api.py', {'cases': areq}, timeout=3000)['results'] if areq else []
+    ctx.evaluations += len(areq)
+    for (g, call, tp, pn), calls in zip(aexp, ares):
+        c = calls[0]
+        got_tp = sorted([k, v] for k, v in c['threads_pids'])
+        got_pn = sorted([k, v] for k, v in c['pids_names'])
+        if c['err'] is None and (got_tp != tp or got_pn != pn) and call != 'traces':
+            ctx.failing.append({'input': {'file': g['data'].hex(), 'api_call': call}, 'expected': {'threads_pids': tp, 'pids_names': pn},
+                                'actual': {'threads_pids': got_tp, 'pids_names': got_pn},
+                                'why': f'version-3 dump: after {call}() was read to its end the tables differ from what the file holds'})
     # the command line's processes / kexts / images commands print, as JSON, what the dump's sections hold (the last
     # processes / images section, the concatenation of the kernel-extension sections)
     import json as _json
